@@ -95,7 +95,7 @@ pub fn run<E: Entry>(ctx: &mut Ctx) {
             }
             // borrow_as
             let b: <E::R as Region>::ReadItem<'_> = IntoOwned::borrow_as(&v);
-            E::check(b, &v, Lvl { oob: false, debug: true, consume_str: false }).map_err(|e| format!("borrow_as(&owned): {e}"))?;
+            E::check(b, &v, Lvl { oob: false, debug: false, consume_str: false }).map_err(|e| format!("borrow_as(&owned): {e}"))?;
             let b: <E::R as Region>::ReadItem<'_> = IntoOwned::borrow_as(&o);
             E::check(b, &v, Lvl::BASIC).map_err(|e| format!("borrow_as(&into_owned(x)): {e}"))?;
             // reborrow
